@@ -17,8 +17,12 @@ class MoleculeCutGroup:
         from .core import Molecules
 
         for keys, df in self._group:
-            key: str = keys[0]  # type: ignore
-            gt, le = map(float, key[1:-1].split(", "))
+            key: str | None = keys[0]  # type: ignore
+            if key is None:
+                # molecules without a value (null) form a group of their own
+                gt = le = float("nan")
+            else:
+                gt, le = map(float, key[1:-1].split(", "))
             mole = Molecules.from_dataframe(df.drop(self._label))
             yield CutEdges(gt, le), mole
 
